@@ -7,7 +7,7 @@ from hypothesis import strategies as st
 from ..core import Result
 from ..exact import Q
 from .. import cfgs, ref, refx
-from .c03 import recompute_route, with_float_fallback, variant_labels
+from .c03 import recompute_route, with_float_fallback, variant_labels, accessors_stay_read_only
 
 LEVEL = 'exploration'
 RULE = ("Same Config product as C01/C03 (PFI has no loss_bigger_is_better), plus models that ignore a chosen feature subset. An "
@@ -91,6 +91,9 @@ def _run_case(cfg):
         bad = cmp.dict(ret, want['importance_values'], tol)
         if bad:
             return Result(False, key='C02:return-value', detail=f'call {t + 1}: returned dict: {bad}')
+        bad = accessors_stay_read_only(ex, ret, want, cmp, tol, r.loss.scale, t)
+        if bad:
+            return Result(False, key=f'C02:{bad[0]}', detail=f'call {t + 1}: {bad[1]}')
         got = {refx.norm_key(k): v for k, v in ex.importance_values.items()}
         for f in ignored:
             v = got[f]
